@@ -11,7 +11,7 @@ Vocabulary (all in `Model/Pipe.lean`, `Model/Iter.lean`):
 * `Ref.chainEvents ignore ops src` — the reference: `Ref.semCall`/`Ref.semWrite` (one record through
   one operator) lifted to streams, operator after operator; `observe` = what a caller sees;
 * `OpOK op` — no batch sizes, `SELF` is not the first of several output keys, a predicate never
-  returns a tuple;
+  returns a tuple; operators *with* batch sizes: see the section "operators with batch sizes";
 * `Ref.CleanRun ignore ops src` — no skippable error is *passed on* between operators (vacuous
   with skipping off: `cleanRun_false`).
 -/
@@ -25,9 +25,10 @@ the caller of the real runner observes — outputs in order, then the first erro
 the reference interpreter produces.
 
 Full-strength statement: the same for *every* chain the builder accepts.  Missing here:
-* operators with `fn_batch_size` / `batch_size` (`OpOK.unbatched`).  For `apply` / `select` the
-  re-grouping is the subject of C19 (`C19_treefn`); for `assign` the statement is **false** on the
-  real code (finding F-C08-assign-rebatch = F-C19-assign, `Witness/C08.lean`);
+* operators with `fn_batch_size` / `batch_size` (`OpOK.unbatched`).  `apply` / `select` / `batch`
+  with batch sizes are covered by `C08_refines_batched_partial` below (which extends this theorem:
+  `C08_refines_batched_extends`); for `assign` the statement is **false** on the real code (finding
+  F-C08-assign-rebatch = F-C19-assign, `Witness/C08.lean`);
 * `SELF` as the first of several output keys of an `apply` (`OpOK.selfAlone`; the builder rejects
   it for `assign` only) and predicates that return tuples (`OpOK.pred`): what the real code does
   there depends on book-keeping keys and has no reference meaning;
@@ -59,8 +60,10 @@ Vocabulary (`Model/Pipe.lean`, section "Reference semantics of apply / select wi
   **the value under an output key is a column of `batch_size` rows**;
 * `BatchedOK ignore op s src` (`Lemmas/PipeBatch.lean`) — `apply` / `select`, `batch_size > 0`, at
   least one output key, the selected inputs (if `fn_batch_size`) and the results of the successful
-  calls are equally long columns, and with skipping on no skippable error reaches the re-batching
-  layer (the inputs of every record can be read — necessary: finding F-C12-fnbatch-lost);
+  calls are equally long columns, and — only with `fn_batch_size` and skipping on — no skippable
+  error reaches the first re-batching generator (the inputs of every record can be read —
+  necessary: finding F-C12-fnbatch-lost; without `fn_batch_size` such a record is skipped,
+  `Ref.skipNT`, and the theorem covers it);
 * `RunOKG ignore ops src` — along the reference run every operator is `OpOK` on a clean stream
   (no batch sizes) or `BatchedOK` (batch sizes); `Ref.chainEventsG` the reference for such chains. -/
 
